@@ -443,6 +443,14 @@ func (e *Enc) addFootprint(ce *callEffect, m string, env *SpecEnv) {
 			e.fatalf("modifies elems(%s): not a slice", m)
 			return
 		}
+		if e.isByRef(sl.Elem()) {
+			// element objects: (coarsely) every object of the element type may change
+			keys, _ := e.byrefFieldKeys(sl.Elem())
+			for _, k := range keys {
+				ce.foot[k] = []string{"*"}
+			}
+			return
+		}
 		key := e.elemKey(sl.Elem())
 		ce.foot[key] = append(ce.foot[key], "(sref "+sv.T+")")
 		return
@@ -682,6 +690,20 @@ func (e *Enc) appendBuiltin(fr *Frame, val ssa.Value, cc *ssa.CallCommon, g stri
 	// copied prefix sit at the same absolute positions in both cases.
 	res := e.define("app_r", sliceSort, fmt.Sprintf("(ite %s (mk_slice (sref %s) (soff %s) %s (scap %s)) (mk_slice %s (soff %s) %s %s))",
 		inplace, s, s, newlen, s, fref, s, newlen, ncap))
+	if e.isByRef(elem) {
+		// element objects: scatter the fields of the prefix (a no-op in place) and of the appended elements
+		lo := e.define("app_lo", "Int", fmt.Sprintf("(+ (soff %s) (slen %s))", s, s))
+		hi := e.define("app_hi", "Int", fmt.Sprintf("(+ (soff %s) %s)", s, newlen))
+		hPre := h2
+		h3 := e.byrefRegion(h2, elem, "(sref "+res+")", "(soff "+s+")", hi, func(fi int, fkey, j string) string {
+			oldF := e.hget(hPre, fkey)
+			return fmt.Sprintf("(ite (< %s %s) (select %s (elemptr (sref %s) %s)) (select %s (elemptr (sref %s) (+ (- %s %s) (soff %s)))))",
+				j, lo, oldF, s, j, oldF, t, j, lo, t)
+		})
+		resT := e.define("app_res", sliceSort, fmt.Sprintf("(ite (= %s 0) %s %s)", k, s, res))
+		fr.ops[val] = opVal(Val{resT, sliceSort})
+		return e.mergeHeaps([]mergeArm{{fmt.Sprintf("(= %s 0)", k), h2}, {"true", h3}})
+	}
 	old := e.hget(h2, key)
 	rref := fmt.Sprintf("(sref %s)", res)
 	row := e.declare("app_row", "(Array Int "+es+")")
@@ -690,8 +712,22 @@ func (e *Enc) appendBuiltin(fr *Frame, val ssa.Value, cc *ssa.CallCommon, g stri
 	lo := e.define("app_lo", "Int", fmt.Sprintf("(+ (soff %s) (slen %s))", s, s))
 	hi := e.define("app_hi", "Int", fmt.Sprintf("(+ (soff %s) %s)", s, newlen))
 	// prefix
-	e.emit(fmt.Sprintf("(assert (forall ((j!a Int)) (! (=> (and (<= (soff %s) j!a) (< j!a %s)) (= (select %s j!a) (select %s j!a))) :pattern ((select %s j!a)))))",
-		s, lo, row, oldRow, row))
+	// (the old row is named so that it can serve as a trigger: reads of the old
+	// prefix then instantiate the axiom for the result row as well)
+	// Only for append(s, x...) with a fresh varargs array: when the appended slice
+	// may share s's row (the append(s[:i], s[i+1:]...) idiom) the extra trigger
+	// would chain through the appended-elements axiom (matching loop).
+	oldRowC := oldRow
+	extraPat := ""
+	if sl, ok := cc.Args[1].(*ssa.Slice); ok {
+		if _, isAlloc := sl.X.(*ssa.Alloc); isAlloc {
+			oldRowC = e.declare("app_old", "(Array Int "+es+")")
+			e.emit(fmt.Sprintf("(assert (= %s %s))", oldRowC, oldRow))
+			extraPat = fmt.Sprintf(" :pattern ((select %s j!a))", oldRowC)
+		}
+	}
+	e.emit(fmt.Sprintf("(assert (forall ((j!a Int)) (! (=> (and (<= (soff %s) j!a) (< j!a %s)) (= (select %s j!a) (select %s j!a))) :pattern ((select %s j!a))%s)))",
+		s, lo, row, oldRowC, row, extraPat))
 	// appended elements
 	e.emit(fmt.Sprintf("(assert (forall ((j!a Int)) (! (=> (and (<= %s j!a) (< j!a %s)) (= (select %s j!a) (select %s (+ (- j!a %s) (soff %s))))) :pattern ((select %s j!a)))))",
 		lo, hi, row, tRow, lo, t, row))
@@ -702,6 +738,9 @@ func (e *Enc) appendBuiltin(fr *Frame, val ssa.Value, cc *ssa.CallCommon, g stri
 	nt := e.define("S_"+key, e.keySort[key], fmt.Sprintf("(ite (= %s 0) %s (store %s %s %s))", k, old, old, rref, row))
 	h2 = e.hset(h2, key, nt)
 	resT := e.define("app_res", sliceSort, fmt.Sprintf("(ite (= %s 0) %s %s)", k, s, res))
+	// ground instance of the store axiom: gives quantifier instantiation the term
+	// "row of the result" so reads of the old prefix carry over to the result
+	e.emit(fmt.Sprintf("(assert (=> (distinct %s 0) (= (select %s (sref %s)) %s)))", k, nt, resT, row))
 	fr.ops[val] = opVal(Val{resT, sliceSort})
 	return h2
 }
@@ -725,6 +764,17 @@ func (e *Enc) copyBuiltin(fr *Frame, val ssa.Value, cc *ssa.CallCommon, g string
 	es := e.d.sortOf(elem)
 	key := e.elemKey(elem)
 	n := e.define("copy_n", "Int", fmt.Sprintf("(imin (slen %s) (slen %s))", dst, src))
+	if e.isByRef(elem) {
+		hi := e.define("copy_hi", "Int", fmt.Sprintf("(+ (soff %s) %s)", dst, n))
+		hPre := h
+		h2 := e.byrefRegion(h, elem, "(sref "+dst+")", "(soff "+dst+")", hi, func(fi int, fkey, j string) string {
+			return fmt.Sprintf("(select %s (elemptr (sref %s) (+ (- %s (soff %s)) (soff %s))))", e.hget(hPre, fkey), src, j, dst, src)
+		})
+		if val != nil {
+			fr.ops[val] = opVal(Val{n, "Int"})
+		}
+		return e.mergeHeaps([]mergeArm{{fmt.Sprintf("(= %s 0)", n), h}, {"true", h2}})
+	}
 	old := e.hget(h, key)
 	row := e.declare("copy_row", "(Array Int "+es+")")
 	oldDst := fmt.Sprintf("(select %s (sref %s))", old, dst)
